@@ -35,6 +35,10 @@ pub const PIECES: &[(&str, &str)] = &[
     ("default-dq", "${u:-\"d e\"}"),
     ("alt", "${v:+alt}"),
     ("empty-dq", "\"\""),
+    // substitutions whose output ends in blanks before the newline (only newlines are trimmed)
+    ("dq-cmdsub-var", "\"$(echo \"$v\")\""),
+    ("cmdsub-var", "$(echo \"$v\")"),
+    ("dq-backquote-var", "\"`printf '%s\\n\\n' \"$v\"`\""),
 ];
 
 const VALUES: &[&str] = &["", " ", "x", " x  y ", "a*", "\\a"];
